@@ -35,9 +35,10 @@ each UPDATE of ``p`` / ``c`` sets exactly the columns with a net change (a value
 to its known original is not written; an attribute whose old value was unknown is
 written).
 
-Guards: ``del`` of a scalar whose object is persistent makes the flush raise KeyError on
-the unchanged tree (see the report: candidate defect ``flush-keyerror-after-del-of-column-
-attribute``); the case ends there.  Objects that become pending only through cascade are
+Guards: a flush that raises KeyError after ``del obj.<column attribute>`` on a persistent
+object is reported as ``flush-keyerror-after-del-of-column-attribute`` (this was a genuine
+defect of the tree, found by this check and fixed in the repository by 9f7dc4b; documented
+behaviour: del works like setting None) and ends the case.  Objects that become pending only through cascade are
 inserted (documented save-update cascade) - the row check uses session membership.
 """
 from __future__ import annotations
